@@ -21,7 +21,9 @@ CHECKS = {
              "predicates and the maximum size by definition; every row is replayed into _bipartite_match (3 vertex/"
              "adjacency orders), match_events, compute_num_true_positives, match_notes/onsets/offsets and the "
              "velocity variant. The algorithm itself is a TLA+ state machine (greedy + phases) model-checked for all "
-             "graphs. Matchings recorded from larger random runs of the metric functions are certified in TLC.",
+             "graphs and its phase snapshots are traced from the real run. Matchings recorded from larger random runs of the "
+             "metric functions AND from windows of the repository's own beat/onset/note/multipitch fixtures are certified in "
+             "TLC; recorded velocity-aware matchings are judged against Velocity.tla.",
         ref="4/C05"),
     "C13": dict(
         technique="TLA+ semantic spec of interval pre-processing (Intervals.tla); TLC generates every bounded input, "
@@ -116,7 +118,9 @@ CHECKS = {
         text="TLC checks on every enumerated input that a copy of the reference is matched completely, scores 1 on all chord "
              "rules/segmentation scores, has pairwise/Rand/ARI 1 and key score 1. On the code, seeded non-degenerate "
              "annotations of all 13 tasks are scored against a deep copy and against the very same objects through every "
-             "evaluate() and metric function (46 function entries); Trace_Rel compares each position with the optimum table.",
+             "evaluate() and metric function (46 function entries); Trace_Rel compares each position with the optimum table. "
+             "MC_C04_melk's SelfPerfect invariant (melody pre-processing under every resampling option) holds exactly outside "
+             "one input class that TLC found - a recorded finding.",
         ref="4/C02"),
     "C01": dict(
         technique="TLA+ range invariants model-checked on the definitional models; every returned score of the code "
@@ -157,7 +161,8 @@ CHECKS = {
              "agreement, swap symmetry, perfect-when-same, relabel invariance, ranges. Rows are replayed into pairwise, "
              "rand_index, ari, mutual_information (MI/AMI/NMI), nce (both normalisations) and vmeasure with random beta; the "
              "entropy-based values are textbook evaluations (math.log, exact hypergeometric weights) of the spec's table; "
-             "vmeasure must be identical to nce(marginal=True).",
+             "vmeasure must be identical to nce(marginal=True). MC_C16_eval composes segment.evaluate (alignment by "
+             "Intervals!AdjustSpec, detection @0.5/@3, deviation, frame clustering) and all 21 entries are replayed.",
         ref="4/C16"),
     "C17": dict(
         technique="TLA+ triplet-ranking definition of T-/L-measure model-checked and replayed as exact rationals",
@@ -165,7 +170,9 @@ CHECKS = {
              "triple of the fraction of window triples ranked strictly in the same order (reduced / full). MC_C17 enumerates "
              "all pairs of small hierarchies (1-2 levels, nested or not) x windows x modes for T (18,816 rows quick) and "
              "labelled pairs x frame sizes for L; TLC checks ranges and self-perfection; exact rationals are compared to 1e-9 "
-             "with tmeasure/lmeasure (random beta), frame-size variants of one pair back to back.",
+             "with tmeasure/lmeasure (random beta), frame-size variants of one pair back to back. MC_C17_eval composes "
+             "hierarchy.evaluate (per-level alignment of late-starting / early- or late-ending estimate levels, then the "
+             "three measures) and is replayed.",
         ref="4/C17"),
     "C18": dict(
         technique="TLA+ definition of multipitch resampling, per-frame maximum matchings and the 14 scores; identities "
@@ -197,7 +204,10 @@ CHECKS = {
              "MC_Key covers the whole key domain. MC_C04 enumerates six lattice domains with all parameter combinations "
              "(documented defaults also left unspecified in the call), checks ranges/nestings on the definitions and exports "
              "rationals that are compared to 1e-9 with the public functions; ties on a tolerance are flagged by the spec and "
-             "skipped, as the property stipulates.",
+             "skipped, as the property stipulates. Further models: Beat.tla (P-score, Goto, Cemgil, continuity, information-gain "
+             "histograms; MC_C04_beat), Pattern.tla (MC_C04_pattern), MelodyPre.tla end to end (padding, voicing, cents, "
+             "resampling kinds linear/zero/nearest, constant hop, continuous voicing; MC_C04_melrs, MC_C04_melk), Velocity.tla "
+             "(least-squares velocity rescaling in exact integers; MC_Velocity), AOR on the recorded matching.",
         ref="4/C04"),
     "C19": dict(
         technique="TLA+ loop machine of the framewise variants and permutation optimality/equivariance (Sep.tla) model-checked; "
